@@ -36,18 +36,30 @@ def scan_store(store, canaries):
     return sorted(keys), hits, nfiles
 
 
-def one(rep, rng, j):
+def one(rep, rng, j, scn=None):
     import os
     from vlab import engine
     from vlab.body import ctx_digest
     from vlab.dagcommon import gen_dag_scenario, scn_key, scn_summary
     from vlab.tasks_core import filter_ctx
+    if scn is not None:
+        backend = scn['backend']
+        return _judge(rep, rng, scn, backend)
     backend = rng.choice(['serial', 'fork', 'fork', 'spawn', 'spawn'])
     types = (('NA', 3), ('NF', 3), ('NT', 3), ('NB', 1), ('NN', 1), ('NJ', 1), ('NP', 2), ('NM', 1))
     scn = gen_dag_scenario(rng, backend=backend, nmax=rng.choice([3, 5, 7]), types=types, precache=False,
                            gated=False, fresh=rng.random() < 0.3)
     scn.pop('free_sleep', None)
     scn['max_workers'] = rng.choice([1, 2, 4, None])
+    return _judge(rep, rng, scn, backend)
+
+
+def _judge(rep, rng, scn, backend):
+    import os
+    from vlab import engine
+    from vlab.body import ctx_digest
+    from vlab.dagcommon import scn_key, scn_summary
+    from vlab.tasks_core import filter_ctx
     keysets = []
     for variant in (0, 1):
         can = [f'CANARY-{variant}-{rng.randrange(1 << 40):x}' for _ in range(3)]
@@ -133,11 +145,4 @@ def replay(rep, wit):
     import random
     rep.case('a', True)
     rep.case('b', True)
-    scn = wit['witness']['scenario']
-    from vlab import engine
-    from vlab.tasks_core import filter_ctx
-    out = engine.run_dag(scn)
-    for e in out.events:
-        if e['k'] == 'start' and scn['backend'] == 'spawn' and e['glob'] != 'import-time':
-            rep.violation('spawn-shares-memory', f"{e['name']} saw {e['glob']}", wit['witness'])
-            break
+    one(rep, random.Random(0), 0, scn=wit['witness']['scenario'])
